@@ -57,8 +57,8 @@ def _judge(repo, fmt, dirty_expected, obs, via):
     if not e["vset"]:
         if obs.get("tag") is not None or (via == "binary" and obs.get("ok")):
             out.append(("version-from-no-valid-tag", "no valid %s tag is reachable from HEAD but zerv reported %r" % (fmt, obs.get("tag"))))
-        elif via == "binary" and not obs.get("no_tags_error"):
-            out.append(("no-tag-not-reported-as-such", "expected a 'no version tags' failure, got %r" % (obs.get("err"),)))
+        elif via == "binary" and not obs.get("err"):
+            out.append(("no-tag-not-reported-as-such", "expected a failure with a diagnostic, got %r" % (obs,)))
     else:
         if obs.get("err") is not None or obs.get("tag") is None:
             out.append(("valid-tag-not-found", "valid %s tags are reachable (%s) but zerv reported none / failed: %r" % (
@@ -99,8 +99,6 @@ def _judge(repo, fmt, dirty_expected, obs, via):
             out.append(("branch-differs", "branch %r reported, is %r" % (obs.get("branch"), want_branch)))
         if obs.get("head") != head["sha"]:
             out.append(("head-hash-differs", "HEAD %r reported, is %s" % (obs.get("head"), head["sha"])))
-        if "prefix" in obs and obs["prefix"] != "g":
-            out.append(("hash-prefix-differs", "hash prefix %r" % obs["prefix"]))
         want_time = head["ctime"]
         if via == "binary" and dirty_expected:
             want_time = NOW
@@ -121,15 +119,21 @@ def observe_probe(pr, repo, fmt):
 
 
 def _strip_g(h):
-    return h[1:] if isinstance(h, str) and h.startswith("g") else ("!no-g-prefix:%s" % h if h is not None else None)
+    # the rendered object writes hashes git-describe style with a `g` in front; the statement is about the hash, so both spellings are read
+    return h[1:] if isinstance(h, str) and h.startswith("g") else h
 
 
-def observe_binary(bins, repo, fmt, gitlog=None, cwd=None, cdir=None):
+def observe_binary(bins, repo, fmt, gitlog=None, cwd=None, cdir=None, how=0):
+    """how: 0 = `-C <repo>` from /, 1 = `-C .` from inside the repository, 2 = no -C at all from inside the repository, 3 = `--directory=<repo>/`"""
     env = core.base_env(bins, home=os.path.dirname(repo.path), gitlog=gitlog, use_gitshim=gitlog is not None)
-    r = core.run_zerv(bins, ["version", "-C", cdir or repo.path, "--input-format", fmt, "--output-format", "zerv"], env=env, cwd=cwd or "/")
+    where = [["-C", cdir or repo.path], ["-C", "."], [], ["--directory=%s/" % repo.path]][how]
+    if how in (1, 2):
+        cwd = repo.path
+    argv = ["version"] + where + ["--input-format", fmt, "--output-format", "zerv"]
+    r = core.run_zerv(bins, argv, env=env, cwd=cwd or "/")
     if r["timeout"]:
         # loaded machine: one generous retry; a second timeout is an inconclusive *event*, never a verdict
-        r = core.run_zerv(bins, ["version", "-C", cdir or repo.path, "--input-format", fmt, "--output-format", "zerv"], env=env, cwd=cwd or "/", timeout=180)
+        r = core.run_zerv(bins, argv, env=env, cwd=cwd or "/", timeout=180)
         if r["timeout"]:
             return dict(timeout=True)
     if r["exit"] != 0:
@@ -175,7 +179,7 @@ def work_history(bins, seed, idx, nops, nobs_cap, tmp):
             e = expect(repo, fmt, dirty)
             obs_p = observe_probe(pr, repo, fmt)
             gitlog = os.path.join(os.path.dirname(path), "git.log") if rng.random() < 0.1 else None
-            obs_b = observe_binary(bins, repo, fmt, gitlog=gitlog)
+            obs_b = observe_binary(bins, repo, fmt, gitlog=gitlog, how=rng.choice([0, 0, 1, 2, 3]))
             if gitlog and os.path.exists(gitlog):
                 for line in open(gitlog):
                     try:
